@@ -63,6 +63,8 @@ class TableGen:
         s = bytes(rng.choice(alphabet) for _ in range(n))
         if rng.random() < 0.15:
             s += rng.choice(['é', '€', '𝄞', 'ü']).encode('utf-8')
+        if rng.random() < 0.06:
+            s += rng.choice([b']]>', b']]]>', b']]]]>', b']] >', b']]'])
         return s
 
     def doc(self, lang=None, max_depth=4, version=None, with_pubid=True):
@@ -227,7 +229,8 @@ def syncml_doc(dump, rng, inner_docs):
             inner = mutate(rng, inner)
         payload = b'\xC3' + mb(len(inner)) + inner
     else:
-        chunks = rng.choice([[b'BEGIN:VCARD\r\nN:Doe;John\r\nEND:VCARD\r\n'], [b'BEGIN:VCARD', b'\n', b'END:VCARD'], [b'a]]>b', b'<x>&'], [b'\n'], [b' ', b'x ']])
+        chunks = rng.choice([[b'BEGIN:VCARD\r\nN:Doe;John\r\nEND:VCARD\r\n'], [b'BEGIN:VCARD', b'\n', b'END:VCARD'], [b'a]]>b', b'<x>&'], [b'\n'], [b' ', b'x '],
+                             [b'NOTE:a[b[c]]]>d'], [b']]', b']>'], [b']]]]>>', b']'], [b']]>]]>'], [b'x]', b']', b'>']])
         payload = b''.join(s(c) if rng.random() < 0.7 else (b'\xC3' + mb(len(c)) + c) for c in chunks)
     cmd = rng.choice([b'Add', b'Replace', b'Results', b'Put'])
     meta_where = rng.choice(['item', 'cmd', 'none'])
